@@ -10,6 +10,22 @@ import random
 from fractions import Fraction
 
 VAR_NAMES = ["x", "y", "z", "w", "V_m", "g_ex", "I_syn", "u1", "h", "r_2"]
+# names related as strings: one a prefix of another, names ending in the characters of the derivative marker ("_", "d")
+NAME_FAMILIES = [["V", "V_syn", "V_d", "V_"], ["g", "g_nmda", "g_d", "gd"], ["w", "w_ad", "w_", "wd_d"], ["I", "I_aux", "I_d"]]
+
+
+def pick_names(rng, m):
+    """m distinct variable names; in about a third of the draws two or more of them come from one family of related names"""
+    if m >= 2 and rng.random() < 0.35:
+        fam = rng.choice(NAME_FAMILIES)
+        k = rng.randint(2, min(m, len(fam)))
+        names = rng.sample(fam, k)
+        names += rng.sample([v for v in VAR_NAMES if v not in names], m - k)
+        rng.shuffle(names)
+        return names
+    if rng.random() < 0.15:
+        return rng.sample(VAR_NAMES + [f[i] for f in NAME_FAMILIES for i in (1, 2) if f[i] not in VAR_NAMES], m)
+    return rng.sample(VAR_NAMES, m)
 PAR_NAMES = ["tau", "a", "b0", "C_m", "k_1", "E_L", "tau_s", "q"]
 DYADIC = [1, -1, 2, -2, 3, -3, Fraction(1, 2), Fraction(-1, 2), Fraction(1, 4), Fraction(-3, 2), Fraction(5, 8), Fraction(-3, 4), 5, -7, 10, 100, -10, 20, 1000, 11]
 
@@ -266,7 +282,7 @@ def merge_terms(terms):
 def gen_system(rng, max_entries=4, kinds=("lin", "lin", "off", "nonlin", "time", "coupled"), allow_order=(1, 1, 1, 2, 2, 3),
                nparams=None, iv_params=True):
     m = rng.randint(1, max_entries)
-    names = rng.sample(VAR_NAMES, m)
+    names = pick_names(rng, m)
     nparams = rng.randint(0, 3) if nparams is None else nparams
     params = rng.sample(PAR_NAMES, nparams)
     entries = []
